@@ -95,8 +95,7 @@ class CopyState:
 
     def __init__(self, xd, d, g):
         self.m = xd.Manager()
-        self.d = {"a": d["a"], "b": d["b"], "c": d["c"],
-                  "n": U.Obj(x=d["n"].x, y=d["n"].y, z=d["n"].z), "l": list(d["l"])}
+        self.d = U.copy_contents(d)
         self.r = self.m.ref(self.d, "d")
         self.fr = self.m.ref(U.FContainer(g), "f")
 
@@ -220,10 +219,8 @@ class HState(c01.State):
             self.g = ex.func("g", 2)
         else:
             d, self.g = init
-            self.d = {"a": d["a"], "b": d["b"], "c": d["c"],
-                      "n": U.Obj(x=d["n"].x, y=d["n"].y, z=d["n"].z), "l": list(d["l"])}
-        self.init = ({"a": self.d["a"], "b": self.d["b"], "c": self.d["c"],
-                      "n": U.Obj(x=self.d["n"].x, y=self.d["n"].y, z=self.d["n"].z), "l": list(self.d["l"])}, self.g)
+            self.d = U.copy_contents(d)
+        self.init = (U.copy_contents(self.d), self.g)
         self.r = self.m.ref(self.d, "d")
         self.fr = self.m.ref(U.FContainer(self.g), "f")
         self.defs = {}
